@@ -890,3 +890,149 @@ Proof.
     apply le_INR in Hlen. pose proof (pow_le B K HB0) as HBK.
     eapply Rle_lt_trans; [exact H1|]. eapply Rle_lt_trans; [|exact Hlt]. apply Rmult_le_compat_r; assumption.
 Qed.
+
+(* ---- (2f) executable premises and the statements as Props/C01.v, Props/C06.v cite them ------------------- *)
+(* an executable test for "finite and |x| <= b" (b an integer) *)
+Definition abs_le_check (b : Z) (x : float) : bool :=
+  match Prim2SF x with
+  | S754_zero _ => (0 <=? b)%Z
+  | S754_finite _ m ex => if (0 <=? ex)%Z then (Zpos m * 2 ^ ex <=? b)%Z else (Zpos m <=? b * 2 ^ (- ex))%Z
+  | _ => false
+  end.
+
+Lemma abs_le_check_ok b x : abs_le_check b x = true -> Rabs (f2r x) <= IZR b.
+Proof.
+  unfold abs_le_check, f2r. rewrite <- FP.B2SF_Prim2B.
+  destruct (FP.Prim2B x) as [s|s| |s m ex Hb]; cbn [B2SF B2R]; try discriminate.
+  - intros H. apply Z.leb_le in H. rewrite Rabs_R0. apply (IZR_le 0), H.
+  - unfold F2R. cbn [Fnum Fexp]. rewrite Rabs_mult, (Rabs_pos_eq (bpow radix2 ex)) by apply bpow_ge_0.
+    rewrite <- abs_IZR, abs_cond_Zopp. cbn [Z.abs].
+    destruct (0 <=? ex)%Z eqn:E; intros H; apply Z.leb_le in H.
+    + apply Z.leb_le in E. rewrite <- (IZR_Zpower radix2) by exact E. rewrite <- mult_IZR. apply IZR_le, H.
+    + apply Z.leb_gt in E. apply IZR_le in H. rewrite mult_IZR, (IZR_Zpower radix2) in H by lia.
+      pose proof (bpow_gt_0 radix2 ex) as Hp.
+      apply Rmult_le_compat_r with (r := bpow radix2 ex) in H; [|lra].
+      rewrite Rmult_assoc, <- bpow_plus in H. replace (- ex + ex)%Z with 0%Z in H by lia.
+      cbn [bpow] in H. lra.
+Qed.
+Lemma abs_le_check_all b l : forallb (abs_le_check b) l = true -> Forall (fun y => Rabs (f2r y) <= IZR b) l.
+Proof. intros H. apply Forall_forall. intros x Hx. apply abs_le_check_ok. exact (proj1 (forallb_forall _ _) H x Hx). Qed.
+
+(* what `mom_abs` says about the state of the exact run on the image of a float series *)
+Lemma mom_abs_fx (sX : @mom XR) l :
+  mom_abs sX (map fx l) ->
+  m_n sX = length (rvals64 l) /\ forall k, (1 <= k <= 4)%nat -> msk k sX = Some (psum k (rvals64 l)).
+Proof.
+  intros (Xn & X1 & X2 & X3 & X4). unfold nv in Xn. rewrite valid_map_fx in Xn, X1, X2, X3, X4.
+  split; [exact Xn|]. intros k Hk.
+  destruct (k_cases k 4 Hk ltac:(lia)) as [-> | [-> | [-> | ->]]]; cbn [msk]; assumption.
+Qed.
+
+(* the float accumulators alone *)
+Theorem moment_accumulators_float_exact K e (emit : @mom float -> float) w body xs :
+  (1 <= K <= 4)%nat -> (-1074 <= Z.of_nat K * e)%Z -> (Z.of_nat K * e + 53 <= 1024)%Z -> (1 <= w)%nat ->
+  forallb (grid_check e) (fvals xs) = true ->
+  (forall i, (i < length xs)%nat -> spow K (rvals64 (win w i xs)) < pow2 (Z.of_nat K * e + 53)) ->
+  forall i v, nth_error xs i = Some v ->
+    exists s : @mom float,
+      nth_error (ts_out (mom_feat (NA := NumF64) (DT := IsNoneF64) emit) body w xs) i = Some (emit s) /\
+      m_n s = length (fvals (win w i xs)) /\
+      forall k, (1 <= k <= K)%nat -> ffin (msk k s) = true /\ f2r (msk k s) = psum k (rvals64 (win w i xs)).
+Proof.
+  intros HK E1 E2 Hw HG HW i v Hv.
+  destruct (moment_state_float_exact K e emit w body xs HK (conj E1 E2) Hw (grid_check_all _ _ HG) HW i v Hv)
+    as (s & [Hn HA] & Ho).
+  exists s. split; [exact Ho|]. split; [exact Hn|exact HA].
+Qed.
+
+Theorem moment_state_exact_on_grid_props K e (emit64 : @mom float -> float) (emitX : @mom XR -> XR) w body xs :
+  (1 <= K <= 4)%nat -> (-1074 <= Z.of_nat K * e)%Z -> (Z.of_nat K * e + 53 <= 1024)%Z -> (1 <= w)%nat ->
+  forallb (grid_check e) (fvals xs) = true ->
+  (forall i, (i < length xs)%nat -> spow K (rvals64 (win w i xs)) < pow2 (Z.of_nat K * e + 53)) ->
+  forall i v, nth_error xs i = Some v ->
+    exists (s64 : @mom float) (sX : @mom XR),
+      nth_error (ts_out (mom_feat (NA := NumF64) (DT := IsNoneF64) emit64) body w xs) i = Some (emit64 s64) /\
+      nth_error (ts_out (mom_feat (NA := NumXR) (DT := IsNoneXR) emitX) body w (map fx xs)) i = Some (emitX sX) /\
+      m_n s64 = m_n sX /\ (forall k, (1 <= k <= K)%nat -> fx (msk k s64) = msk k sX) /\
+      m_n sX = length (rvals64 (win w i xs)) /\
+      (forall k, (1 <= k <= 4)%nat -> msk k sX = Some (psum k (rvals64 (win w i xs)))).
+Proof.
+  intros HK E1 E2 Hw HG HW i v Hv.
+  destruct (moment_state_exact_on_grid K e emit64 emitX w body xs HK (conj E1 E2) Hw (grid_check_all _ _ HG) HW i v Hv)
+    as (s64 & sX & H1 & H2 & Hn & Hk & HX).
+  exists s64, sX. destruct (mom_abs_fx sX _ HX) as [Xn Xk]. repeat split; assumption.
+Qed.
+
+Theorem moment_state_exact_on_grid_all_props e (emit64 : @mom float -> float) (emitX : @mom XR -> XR) w body xs :
+  (-1074 <= 4 * e)%Z -> (4 * e + 53 <= 1024)%Z -> (1 <= w)%nat ->
+  forallb (grid_check e) (fvals xs) = true ->
+  (forall i, (i < length xs)%nat -> psum 4 (rvals64 (win w i xs)) < pow2 (4 * e + 53)) ->
+  forall i v, nth_error xs i = Some v ->
+    exists s64 : @mom float,
+      nth_error (ts_out (mom_feat (NA := NumF64) (DT := IsNoneF64) emit64) body w xs) i = Some (emit64 s64) /\
+      nth_error (ts_out (mom_feat (NA := NumXR) (DT := IsNoneXR) emitX) body w (map fx xs)) i
+      = Some (emitX (mom_fx s64)).
+Proof.
+  intros E1 E2 Hw HG HW.
+  apply (moment_state_exact_on_grid_all e emit64 emitX w body xs (conj E1 E2) Hw (grid_check_all _ _ HG)).
+  intros i Hi. specialize (HW i Hi). unfold spow, sumabs. rewrite map_map.
+  erewrite map_ext; [exact HW|]. intros a. cbn beta. apply Rabs_pos_eq.
+  replace (a ^ 4) with ((a * a) * (a * a)) by ring. apply Rle_0_sqr.
+Qed.
+
+(* the premise from executable magnitude / grid tests: |x| <= b for every valid element, w * b^K < 2^(K e + 53) *)
+Theorem windows_in_range_of_bound_props K e w xs (b : Z) :
+  (1 <= w)%nat -> forallb (abs_le_check b) (fvals xs) = true ->
+  INR w * IZR b ^ K < pow2 (Z.of_nat K * e + 53) ->
+  forall i, (i < length xs)%nat -> spow K (rvals64 (win w i xs)) < pow2 (Z.of_nat K * e + 53).
+Proof.
+  intros Hw HB Hlt. apply (windows_in_range_of_bound K e w xs (IZR b) Hw (abs_le_check_all _ _ HB) Hlt).
+Qed.
+
+(* the sum of squares, as the task states it: grid 2^e, |x| <= b, w * b^2 < 2^(2e+53) *)
+Theorem sum_of_squares_exact_on_grid e (b : Z) (emit : @mom float -> float) w body xs :
+  (-1074 <= 2 * e)%Z -> (2 * e + 53 <= 1024)%Z -> (1 <= w)%nat ->
+  forallb (grid_check e) (fvals xs) = true -> forallb (abs_le_check b) (fvals xs) = true ->
+  INR w * IZR b ^ 2 < pow2 (2 * e + 53) ->
+  forall i v, nth_error xs i = Some v ->
+    exists s : @mom float,
+      nth_error (ts_out (mom_feat (NA := NumF64) (DT := IsNoneF64) emit) body w xs) i = Some (emit s) /\
+      m_n s = length (fvals (win w i xs)) /\
+      ffin (m_s1 s) = true /\ f2r (m_s1 s) = psum 1 (rvals64 (win w i xs)) /\
+      ffin (m_s2 s) = true /\ f2r (m_s2 s) = psum 2 (rvals64 (win w i xs)).
+Proof.
+  intros E1 E2 Hw HG HB Hlt i v Hv.
+  destruct (moment_accumulators_float_exact 2 e emit w body xs ltac:(lia) E1 E2 Hw HG
+              (windows_in_range_of_bound_props 2 e w xs b Hw HB Hlt) i v Hv) as (s & Ho & Hn & Hk).
+  exists s. destruct (Hk 1%nat ltac:(lia)) as [F1 V1]. destruct (Hk 2%nat ltac:(lia)) as [F2 V2].
+  repeat split; assumption.
+Qed.
+
+(* DESIGN 2.3: the generated inputs are k/4 with |k| <= 400 (grid 2^-2, |x| <= 100) and windows of at most 64 elements:
+   every window's fourth-power sum is below 2^45, so all four power sums are exact in binary64 *)
+Theorem generated_inputs_in_range w xs :
+  (1 <= w <= 64)%nat -> forallb (abs_le_check 100) (fvals xs) = true ->
+  forall i, (i < length xs)%nat -> psum 4 (rvals64 (win w i xs)) < pow2 (4 * (-2) + 53).
+Proof.
+  intros Hw HB i Hi.
+  eapply Rle_lt_trans; [eapply Rle_trans; [apply Rle_abs|apply psum_le_spow]|].
+  apply (windows_in_range_of_bound_props 4 (-2) w xs 100 ltac:(lia) HB); [|exact Hi].
+  assert (H64 : INR w <= 64).
+  { replace 64 with (INR 64) by (rewrite INR_IZR_INZ; reflexivity). apply le_INR. lia. }
+  change (pow2 (Z.of_nat 4 * -2 + 53)) with (IZR (2 ^ 45)).
+  apply Rle_lt_trans with (64 * 100 ^ 4); [apply Rmult_le_compat_r; [apply pow_le; lra|exact H64]|].
+  replace (64 * 100 ^ 4) with (IZR (64 * 100 ^ 4)) by (rewrite mult_IZR, pow_IZR; reflexivity).
+  apply IZR_lt. reflexivity.
+Qed.
+
+Theorem ts_vsum_f64_exact_on_grid_local_props e w mp body xs :
+  (-1074 <= e)%Z -> (e + 53 <= 1024)%Z -> (1 <= w)%nat -> forallb (grid_check e) (fvals xs) = true ->
+  (forall i, (i < length xs)%nat -> spow 1 (rvals64 (win w i xs)) < pow2 (e + 53)) ->
+  map fx (ts_out (ts_vsum64 w mp) body w xs)
+  = ts_out (ts_vsum_f (NA := NumXR) (DT := IsNoneXR) w mp) body w (map fx xs).
+Proof.
+  intros E1 E2 Hw HG HW. apply (ts_vsum_f64_exact_on_grid_local e w mp body xs); try assumption.
+  - split; [change (Z.of_nat 1 * e)%Z with (1 * e)%Z|change (Z.of_nat 1 * e)%Z with (1 * e)%Z]; lia.
+  - apply grid_check_all, HG.
+  - intros i Hi. replace (Z.of_nat 1 * e + 53)%Z with (e + 53)%Z by lia. apply HW, Hi.
+Qed.
